@@ -189,7 +189,7 @@ func acceptSpec(accepts []string) (json, nd, bad bool) {
 
 func TestCheck(t *testing.T) {
 	r := vp.New("C19", "exploration",
-		"result lists: every list of 0..N results over 27 result kinds ({context ID nil/empty/binary} x {metadata nil/empty/binary} x {provider with 0..2 addresses}), written through rwriter (+ProviderResponseWriter) by an in-memory HTTP server and read back by find/client.Find / FindBatch (JSON-preferring server) and raw NDJSON/JSON requests; keys: multihashes of 5 hash functions in base58 and hex, CIDv0/v1 strings; Accept headers: every sequence of <=2 header values over 9 values, both server preferences; 12 request path shapes; apierror: every status 400..599 x 5 messages through EncodeError/DecodeError and FromResponse, bare and inside 5 shapes of error chains (wrapped once / twice, joined first / second, API error wrapping a plain chain). Non-trivial: lists with >=1 result, negotiation/path cases other than the plain JSON request.",
+		"result lists: every list of 0..N results over 27 result kinds, plus lists of 8, 16, 40, 200 and 1000 results (responses too large for a declared content length) ({context ID nil/empty/binary} x {metadata nil/empty/binary} x {provider with 0..2 addresses}), written through rwriter (+ProviderResponseWriter) by an in-memory HTTP server and read back by find/client.Find / FindBatch (JSON-preferring server) and raw NDJSON/JSON requests; keys: multihashes of 5 hash functions in base58 and hex, CIDv0/v1 strings; Accept headers: every sequence of <=2 header values over 9 values, both server preferences; 12 request path shapes; apierror: every status 400..599 x 5 messages through EncodeError/DecodeError and FromResponse, bare and inside 5 shapes of error chains (wrapped once / twice, joined first / second, API error wrapping a plain chain). Non-trivial: lists with >=1 result, negotiation/path cases other than the plain JSON request.",
 		"the find client sends no Accept header, so client read-back is checked against a server created with WithPreferJson(true); the strict server is checked with raw requests",
 		"nil and empty context ID / metadata are equal (the JSON encoding omits both)",
 		"a key that is both valid base58 and valid hex is only required not to decode to a different valid multihash",
@@ -243,6 +243,15 @@ func TestCheck(t *testing.T) {
 			lists = append(lists, []int{i, (i + 5) % len(kinds), (i + 11) % len(kinds)})
 		}
 	}
+	// long lists: responses that no longer fit a server's write buffer are sent
+	// without a declared length (chunked); read-back must not depend on that
+	for _, n := range []int{8, 16, 40, 200, 1000} {
+		var l []int
+		for i := 0; i < n; i++ {
+			l = append(l, (i*7+3)%len(kinds))
+		}
+		lists = append(lists, l)
+	}
 	r.Bounds(map[string]any{"result_kinds": len(kinds), "result_lists": len(lists)})
 
 	// 1. read-back of every result list
@@ -252,6 +261,9 @@ func TestCheck(t *testing.T) {
 			names = append(names, kinds[i].String())
 		}
 		key := "list|" + strings.Join(names, ",")
+		if len(l) > 6 {
+			key = fmt.Sprintf("list|long-%d-results", len(l))
+		}
 		if !r.Mine(key) {
 			continue
 		}
